@@ -103,15 +103,37 @@ def _init_unit():
             inst.fields['_annotate'] = FuncV('_annotate', lambda p, a, k: calls.append(('annotate', a, k)) or NONE)
             inst.fields['_make_mapping'] = FuncV('_make_mapping', lambda p, a, k: calls.append(('make_mapping', a, k)) or mapping)
 
-            def sorted_(p, args, kw):
-                (seq,) = args
+            def sort_contract(p, seq, kw):
+                """sorted(concepts, key=longlex) / list(concepts).sort(key=longlex): the members in ascending order of the key"""
                 ok = seq is concepts and set(kw) == {'key'}
                 p.oblige('pre@sorted/concepts-by-longlex', 'pre@call', BoolVal(ok))
                 if ok:
                     r = kw['key'].fn(p, [member(p.fresh_int('s'))], {})
                     p.oblige('pre@sorted/key-is-longlex', 'pre@call', BoolVal(isinstance(r, IntV) and r.tag == 'Key'))
                 return SeqV(lambda t: member(perm(t)), L.N, 'sorted(concepts)')
-            g = dict(lib.builtins(), sorted=FuncV('sorted', sorted_), Atom=ClassV('Atom'), Supremum=ClassV('Supremum'), Infimum=ClassV('Infimum'))
+
+            def sorted_(p, args, kw):
+                (seq,) = args
+                return sort_contract(p, seq, kw)
+
+            def list_(p, args, kw):
+                # list(concepts): a NEW list with the same members in the same order (sorting it leaves `concepts` as it is)
+                if len(args) != 1 or args[0] is not concepts or kw:
+                    return lib.builtins()['list'].fn(p, args, kw)
+                o = ObjV('list', {}, name='list(concepts)')
+                o.of, o.cur = concepts, SeqV(concepts.at, concepts.length, 'list(concepts)')
+
+                def sort(p2, a2, k2):
+                    o.cur = sort_contract(p2, o.of, k2)
+                    o.of = None        # (a second sort would sort the sorted copy: not modelled)
+                    return NONE
+                f = FuncV('list.sort', sort)
+                f.is_method = True
+                o.fields['sort'] = f
+                o.fields['__iter__'] = FuncV('list.__iter__', lambda p2, a2, k2: IterV(o.cur.at, o.cur.length, 'iter(%s)' % o.cur.name))
+                return o
+            g = dict(lib.builtins(), sorted=FuncV('sorted', sorted_), list=FuncV('list', list_), Atom=ClassV('Atom'), Supremum=ClassV('Supremum'),
+                     Infimum=ClassV('Infimum'))
 
             def tuple_(p, args, kw):
                 (v,) = args
